@@ -16,6 +16,7 @@ type TreeCfg struct {
 	Txs        bool // generate spending transactions
 	Maturity   []uint16
 	ForkProb   int // percent of blocks that fork off a non-leaf
+	NoUtxo     bool
 }
 
 // GenTree draws a block tree.
@@ -27,6 +28,7 @@ func GenTree(t *rapid.T, cfg TreeCfg) *Tree {
 	}
 	mat := rapid.SampledFrom(mats).Draw(t, "maturity")
 	tr := NewTree(fam, NewParams(fam, mat))
+	tr.NoUtxo = cfg.NoUtxo
 	n := rapid.IntRange(cfg.MinBlocks, cfg.MaxBlocks).Draw(t, "blocks")
 	invalidLeft := 0
 	if cfg.MaxInvalid > 0 {
